@@ -168,11 +168,11 @@ pub(crate) fn recording_authenticator(alg: &Algorithm, key: &[u8]) -> Box<dyn Au
 // by these through #[kani::stub].
 pub(crate) fn rec_fetch_impl(out: &mut [u8; REC_CAP]) -> (usize, usize, bool) {
     let mut c = 0;
-    while c < 4 {
+    while c < 16 {
         let mut i = 0;
-        while i < 32 {
+        while i < 8 {
             unsafe {
-                out[c * 32 + i] = REC[c * 32 + i];
+                out[c * 8 + i] = REC[c * 8 + i];
             }
             i += 1;
         }
@@ -198,12 +198,16 @@ pub(crate) fn rec_force_impl(v: u8) {
 
 /// The tag most recently submitted to verify_truncated_left (usize::MAX: none).
 pub(crate) fn rec_tag_impl(out: &mut [u8; TAG_CAP]) -> usize {
-    let mut i = 0;
-    while i < TAG_CAP {
-        unsafe {
-            out[i] = LAST_TAG[i];
+    let mut c = 0;
+    while c < 2 {
+        let mut i = 0;
+        while i < 17 {
+            unsafe {
+                out[c * 17 + i] = LAST_TAG[c * 17 + i];
+            }
+            i += 1;
         }
-        i += 1;
+        c += 1;
     }
     unsafe { LAST_TAG_LEN }
 }
